@@ -610,12 +610,182 @@ func (p *parserFns) isConsumingCall(call ssa.CallInstruction) bool {
 	return f != nil && (f == p.found || f == p.expect || f == p.seq || f == p.choice || f == p.atom)
 }
 
+// par2primitives: the three cursor tests mean what every other parser rule takes them to mean.
+// is(K): the current token's kind compared with K, false at the end of input, nothing else decides;
+// found(K): true exactly on is(K), advancing then; expect(K): returns normally only when found(K).
+func par2primitives(c *Ctx, p *parserFns) {
+	if fn := p.is; fn != nil {
+		c.Mark(fn)
+		var kp *ssa.Parameter
+		if len(fn.Params) == 2 {
+			kp = fn.Params[1]
+		}
+		isCmp := func(v ssa.Value) bool {
+			bo, ok := v.(*ssa.BinOp)
+			if !ok || bo.Op != token.EQL || kp == nil {
+				return false
+			}
+			cur := func(x ssa.Value) bool {
+				if p.isCurrentTokenTyp(x) {
+					return true
+				}
+				// a result variable of an inlined peek: the one value it can have here
+				vs := ir.PhiValuesAt(x, bo.Block())
+				return len(vs) == 1 && p.isCurrentTokenTyp(vs[0])
+			}
+			return (cur(bo.X) && bo.Y == ssa.Value(kp)) || (cur(bo.Y) && bo.X == ssa.Value(kp))
+		}
+		// "no token under the cursor": eof(), or the cursor compared with the number of tokens
+		noToken := func(x ssa.Value, r *ir.RetPoint) bool {
+			if call, isCall := x.(*ssa.Call); isCall && ir.Static(call) == p.eof {
+				return r.Holds(x, true)
+			}
+			bo, isBo := x.(*ssa.BinOp)
+			if !isBo {
+				return false
+			}
+			_, f, isF := ir.FieldLoad(bo.X)
+			if !isF || f != "tkpos" {
+				return false
+			}
+			if z, isC := ir.ConstInt(bo.Y); isC && z == 0 && bo.Op == token.LSS {
+				return r.Holds(bo, true)
+			}
+			if lc, isCall := bo.Y.(*ssa.Call); isCall && len(lc.Call.Args) == 1 {
+				if bi, isB := lc.Call.Value.(*ssa.Builtin); isB && bi.Name() == "len" {
+					if _, lf, isLF := ir.FieldLoad(lc.Call.Args[0]); isLF && lf == "tokens" {
+						return (bo.Op == token.GEQ && r.Holds(bo, true)) || (bo.Op == token.LSS && r.Holds(bo, false))
+					}
+				}
+			}
+			return false
+		}
+		ok, why := len(ir.ReturnWays(fn)) > 0, ""
+		for _, r := range ir.ReturnWays(fn) {
+			v := r.Results[0]
+			if isCmp(v) {
+				continue
+			}
+			b, isC := ir.ConstBool(v)
+			good := false
+			if isC {
+				ir.Instrs(fn, func(in ssa.Instruction) {
+					x, isV := in.(ssa.Value)
+					if !isV {
+						return
+					}
+					if isCmp(x) && r.Holds(x, b) {
+						good = true
+					}
+					if !b && noToken(x, r) {
+						good = true // no token left
+					}
+				})
+			}
+			if !good && isC && !b {
+				// several grounds share this way out: with every "no token" outcome and every failed kind
+				// comparison cut, it cannot be reached
+				cut := map[ir.Edge]bool{}
+				ir.Instrs(fn, func(in ssa.Instruction) {
+					x, isV := in.(ssa.Value)
+					if !isV {
+						return
+					}
+					for _, want := range []bool{true, false} {
+						for _, e := range ir.EdgesWhere(fn, x, want) {
+							if (isCmp(x) && !want) || noTokenOutcome(p, x, want) {
+								cut[ir.Edge{From: e.From, To: e.To}] = true
+							}
+						}
+					}
+				})
+				if len(cut) > 0 && !r.ReachableUnder(ir.Reach(fn.Blocks[0], nil, cut), cut) {
+					good = true
+				}
+			}
+			if !good {
+				ok, why = false, "a verdict at "+c.P.Pos(r.Pos())+" is decided by something other than the end of input or the comparison of the current token's kind with the argument"
+			}
+		}
+		c.Check(ok, Q(fn)+":meaning", fn.Pos(), "true iff a token is left and its kind is the argument", why)
+	}
+	if fn := p.found; fn != nil {
+		c.Mark(fn)
+		var test *ssa.Call
+		for _, cv := range callsTo(fn, p.is) {
+			if len(cv.Call.Args) == 2 && len(fn.Params) == 2 && cv.Call.Args[1] == ssa.Value(fn.Params[1]) {
+				test = cv
+			}
+		}
+		ok, why := test != nil, "found does not test is(<its argument>)"
+		if test != nil {
+			for _, r := range ir.ReturnWays(fn) {
+				v := r.Results[0]
+				if v == ssa.Value(test) {
+					continue
+				}
+				b, isC := ir.ConstBool(v)
+				if !isC || !r.Holds(test, b) {
+					ok, why = false, "a verdict at "+c.P.Pos(r.Pos())+" is not the outcome of is(<the argument>)"
+				}
+			}
+		}
+		c.Check(ok, Q(fn)+":meaning", fn.Pos(), "true exactly when is(K) holds (the token is then consumed)", why)
+	}
+	if fn := p.expect; fn != nil {
+		c.Mark(fn)
+		var test *ssa.Call
+		for _, cv := range callsTo(fn, p.found) {
+			if len(cv.Call.Args) == 2 && len(fn.Params) == 2 && cv.Call.Args[1] == ssa.Value(fn.Params[1]) {
+				test = cv
+			}
+		}
+		ok, why := test != nil, "expect does not call found(<its argument>)"
+		if test != nil {
+			for _, r := range ir.ReturnWays(fn) {
+				if !r.Holds(test, true) {
+					ok, why = false, "expect can return normally at "+c.P.Pos(r.Pos())+" without the demanded token having been found"
+				}
+			}
+		}
+		c.Check(ok, Q(fn)+":meaning", fn.Pos(), "returns normally only when found(K) succeeded; panics otherwise", why)
+	}
+}
+
+// noTokenOutcome: the outcome `want` of x means that no token is under the cursor: eof() true, the cursor
+// negative, or the cursor not below the number of tokens.
+func noTokenOutcome(p *parserFns, x ssa.Value, want bool) bool {
+	if call, isCall := x.(*ssa.Call); isCall && ir.Static(call) == p.eof {
+		return want
+	}
+	bo, isBo := x.(*ssa.BinOp)
+	if !isBo {
+		return false
+	}
+	_, f, isF := ir.FieldLoad(bo.X)
+	if !isF || f != "tkpos" {
+		return false
+	}
+	if z, isC := ir.ConstInt(bo.Y); isC && z == 0 && bo.Op == token.LSS {
+		return want
+	}
+	if lc, isCall := bo.Y.(*ssa.Call); isCall && len(lc.Call.Args) == 1 {
+		if bi, isB := lc.Call.Value.(*ssa.Builtin); isB && bi.Name() == "len" {
+			if _, lf, isLF := ir.FieldLoad(lc.Call.Args[0]); isLF && lf == "tokens" {
+				return (bo.Op == token.GEQ && want) || (bo.Op == token.LSS && !want)
+			}
+		}
+	}
+	return false
+}
+
 func par2(c *Ctx) {
 	p := c.parserFns()
 	if p == nil {
 		c.Undecided("anchor:parser", token.NoPos, "parser functions not found")
 		return
 	}
+	par2primitives(c, p)
 	fn := p.atom
 	c.Mark(fn)
 	// (a) every normal return passes a found-true edge (or an expect, which consumes or panics)
